@@ -447,9 +447,6 @@ package raft
 //@ iface Transport.RegisterRequestVoteHandler(handler) ()
 //@ iface Transport.RegsiterInstallSnapshotHandler(handler) ()
 
-//@ func Configuration.Clone
-//@   flags inline
-
 //@ func Raft.restore
 //@   requires r.log != nil && r.stateStorage != nil && r.snapshotStorage != nil && r.transport != nil && r.fsm != nil
 //@   ensures [term-vote] err == nil ==> r.currentTerm == persTerm && r.votedFor == persVote
